@@ -1,7 +1,133 @@
 import CogentModel.Json
-open CogentModel
+import CogentModel.Model.RateMatrix
+import CogentModel.Model.Expm
+open CogentModel CogentModel.RateMatrix CogentModel.Expm
 
-def handle (cmd : String) (_j : J) : Except String J :=
-  throw s!"unknown command {cmd}"
+def jVec (j : J) : Except String (Vec Rat) := do return (← j.toListOf J.toRat).toArray
+def jMat (j : J) : Except String (Mat Rat) := do return ((← j.toListOf jVec)).toArray
+def jNatVec (j : J) : Except String (Array Nat) := do return (← j.toListOf J.toNat).toArray
+def jNatMat (j : J) : Except String (Array (Array Nat)) := do return (← j.toListOf jNatVec).toArray
+def jPairs (j : J) : Except String (List (Nat × Nat)) := j.toListOf (J.toPairOf J.toNat J.toNat)
+def jBoolMat (j : J) : Except String (Mat Bool) := do
+  return ((← j.toListOf fun r => do return ((← r.toListOf J.toNat).map (· != 0)).toArray)).toArray
+
+def vecJ (v : Vec Rat) : J := J.arr (v.toList.map J.ofRat)
+def matJ (m : Mat Rat) : J := J.arr (m.toList.map vecJ)
+def boolMatJ (m : Mat Bool) : J := J.arr (m.toList.map fun r => J.arr (r.toList.map fun b => J.num (if b then 1 else 0)))
+
+/-- round to a multiple of 2^-160 (only to keep replies small; error < 1e-48) -/
+def rnd (x : Rat) : Rat :=
+  let s : Nat := 2 ^ 160
+  ((Rat.floor (x * (s : Rat)) : Int) : Rat) / (s : Rat)
+def matJr (m : Mat Rat) : J := J.arr (m.toList.map fun r => J.arr (r.toList.map fun x => J.ofRat (rnd x)))
+
+def tol8 : Rat := 1 / 100000000
+def rtol5 : Rat := 1 / 100000
+
+/-- max |(A·B − C)_ij| -/
+def residual (n : Nat) (A B C : Mat Rat) : Rat :=
+  let M := matSub n (matMul n A B) C
+  (List.range n).foldl (fun m i => (List.range n).foldl (fun m j => let x := absR (mget M i j); if m < x then x else m) m) 0
+
+def handle (cmd : String) (j : J) : Except String J :=
+  match cmd with
+  | "inst" => do
+    let words ← jNatMat (← j.get "words")
+    let g ← (← j.get "gap").toNat
+    let codon ← (← j.get "codon").toBool
+    pure (boolMatJ (instMask codon g words))
+  | "q" => do
+    -- full Q construction from the structural data of a model + parameter values
+    let n ← (← j.get "n").toNat
+    let kind ← (← j.get "kind").toStr
+    let mkind ← (← j.get "mprob").toStr
+    let stationary ← (← j.get "stationary").toBool
+    let params ← (← j.get "params").toListOf J.toRat
+    let inst ← jBoolMat (← j.get "inst")
+    let words ← jNatMat (← j.get "words")
+    let L ← (← j.get "L").toNat
+    -- motif probabilities: one vector (tuple / monomer / conditional) or L vectors (monomers)
+    let mps ← (← j.get "mprobs").toListOf jVec
+    let mp0 := mps.headD #[]
+    let mp : Nat → Vec Rat := fun k => if mkind = "monomers" then mps.getD k #[] else mp0
+    let (wp, W) : Vec Rat × Mat Rat :=
+      if mkind = "tuple" then (mp0, weightSimple n mp0)
+      else if mkind = "conditional" then (mp0, weightConditional words L inst mp0)
+      else (wordProbsMonomer words L mp, weightMonomer words inst mp)
+    let R : Option (Mat Rat) ←
+      match kind with
+      | "parametric" => do
+        let preds ← (← j.get "preds").toListOf jPairs
+        pure (exchParametric n (maskF n inst) preds params)
+      | "empirical" => do
+        let rm ← jMat (← j.get "rate_matrix")
+        pure (some (tab n (mget rm)))
+      | "general" => do
+        let pick ← jNatMat (← j.get "pick")
+        pure (some (exchGeneral n pick params))
+      | "genstat" => do
+        let pick ← jNatMat (← j.get "pick")
+        let lic ← jPairs (← j.get "last_in_column")
+        pure (exchGeneralStationary n tol8 pick lic wp params)
+      | k => throw s!"bad kind {k}"
+    match R with
+    | none => pure (J.obj [("err", J.str "exch")])
+    | some R =>
+      let Q := if stationary then calcQStationary n R W wp else calcQGeneral n R wp
+      pure (J.obj [("Q", matJ Q), ("R", matJ R), ("wprobs", vecJ wp), ("W", matJ W)])
+  | "rates" => do
+    let w ← jVec (← j.get "weights")
+    let v ← jVec (← j.get "values")
+    match ← (← j.get "kind").toStr with
+    | "weighted" => pure (vecJ (ratesWeighted w v))
+    | "monotonic" => pure (vecJ (ratesMonotonic w v))
+    | "gamma" => pure (vecJ (ratesGamma w v))
+    | k => throw s!"bad kind {k}"
+  | "taylor" => do
+    -- TaylorExponentiator(Q)(t) with self.q = q
+    let n ← (← j.get "n").toNat
+    let Q ← jMat (← j.get "Q")
+    let t ← (← j.get "t").toRat
+    let q ← (← j.get "q").toNat
+    let fuel ← (← j.get "fuel").toNat
+    let (P, k) := taylor n rtol5 tol8 Q t q fuel
+    pure (J.obj [("P", matJr P), ("k", J.num k)])
+  | "expref" => do
+    -- reference value of exp(tQ): fixed-order Taylor sum + exact remainder bound
+    let n ← (← j.get "n").toNat
+    let Q ← jMat (← j.get "Q")
+    let t ← (← j.get "t").toRat
+    let q ← (← j.get "q").toNat
+    let A := matScale n t Q
+    let (P, _) := taylorFixed n A q
+    let nb := normInf n A
+    pure (J.obj [("P", matJr P), ("norm", J.ofRat (rnd nb)),
+      ("bound", match taylorRemainder nb q with | some b => J.ofRat (rnd b + 1 / ((2 ^ 160 : Nat) : Rat)) | none => J.null)])
+  | "pade" => do
+    let n ← (← j.get "n").toNat
+    let Q ← jMat (← j.get "Q")
+    let t ← (← j.get "t").toRat
+    let (P, q, jj) :=
+      match j.get? "q", j.get? "j" with
+      | some (J.num q), some (J.num jj) => (padeCore n Q t q.toNat jj.toNat, q.toNat, jj.toNat)
+      | _, _ => pade n Q t
+    match P with
+    | none => pure (J.obj [("err", J.str "singular"), ("q", J.num q), ("j", J.num jj)])
+    | some P =>
+      -- per-instance exact validation of the elimination: D·F = N where F is the unsquared solution
+      let A := matDivS n (matScale n t Q) (pow2 jj)
+      let (N, D) := padeND n A q
+      let res := match solve n D N with
+        | some F => residual n D F N
+        | none => 1
+      pure (J.obj [("P", matJr P), ("q", J.num q), ("j", J.num jj), ("solve_residual", J.ofRat res)])
+  | "solve" => do
+    let n ← (← j.get "n").toNat
+    let D ← jMat (← j.get "D")
+    let N ← jMat (← j.get "N")
+    match solve n D N with
+    | none => pure (J.obj [("err", J.str "singular")])
+    | some F => pure (J.obj [("F", matJ F), ("residual", J.ofRat (residual n D F N))])
+  | _ => throw s!"unknown command {cmd}"
 
 def main : IO Unit := driverLoop handle
